@@ -266,6 +266,11 @@ type Op struct {
 	N    int    `json:"n,omitempty"`
 	Stop bool   `json:"stop,omitempty"`
 	Toks []STok `json:"toks,omitempty"`
+	// Via: how a write op hands its tokens to the TokenReadEncoder the handler was
+	// given: "" EncodeToken one by one | "copy" xmlstream.Copy into it | "encode"
+	// Encode(v) with v a token reader | "encode-wt" Encode(v) with v an
+	// xmlstream.WriterTo | "element" EncodeElement(v, start) per top-level element.
+	Via string `json:"via,omitempty"`
 	Ret  string `json:"ret,omitempty"` // nil | eof | stream | other
 	Cond string `json:"cond,omitempty"`
 }
@@ -309,6 +314,11 @@ func (r *recorder) EncodeToken(t xml.Token) error {
 	}
 	return err
 }
+
+// Note records tokens that reach the session through a method the recorder
+// cannot see into (Encode, EncodeElement go from the wrapped value straight to
+// the session's writer).
+func (r *recorder) Note(toks []STok) { r.inv.Wrote = append(r.inv.Wrote, toks...) }
 
 func (r *recorder) Encode(v interface{}) error { return r.t.Encode(v) }
 func (r *recorder) EncodeElement(v interface{}, start xml.StartElement) error {
@@ -354,9 +364,7 @@ func RunOps(t xmlstream.TokenReadEncoder, ops []Op) error {
 				}
 			}
 		case "write":
-			for _, s := range op.Toks {
-				_ = t.EncodeToken(s.XML())
-			}
+			writeVia(t, op)
 		case "ret":
 			switch op.Ret {
 			case "eof":
@@ -378,6 +386,82 @@ func RunOps(t xmlstream.TokenReadEncoder, ops []Op) error {
 		}
 	}
 	return nil
+}
+
+// withNote lets a handler that is handed a wrapper of the recorder (the
+// multiplexer's) still report what it writes through Encode / EncodeElement.
+type withNote struct {
+	xmlstream.TokenReadEncoder
+	note func([]STok)
+}
+
+func (w withNote) Note(toks []STok) { w.note(toks) }
+
+type sliceReader struct {
+	toks []STok
+	i    int
+}
+
+func (r *sliceReader) Token() (xml.Token, error) {
+	if r.i >= len(r.toks) {
+		return nil, io.EOF
+	}
+	r.i++
+	return r.toks[r.i-1].XML(), nil
+}
+
+type tokWriterTo []STok
+
+func (w tokWriterTo) WriteXML(tw xmlstream.TokenWriter) (int, error) {
+	for i, s := range w {
+		if err := tw.EncodeToken(s.XML()); err != nil {
+			return i, err
+		}
+	}
+	return len(w), nil
+}
+
+// writeVia performs a write op through the method it names. Errors are ignored
+// like those of EncodeToken (a handler need not look at them).
+func writeVia(t xmlstream.TokenReadEncoder, op Op) {
+	note := func(toks []STok) {
+		if n, ok := t.(interface{ Note([]STok) }); ok {
+			n.Note(toks)
+		}
+	}
+	elems, balanced := TopElems(op.Toks)
+	whole := balanced && len(elems) > 0
+	if whole { // only complete elements and nothing between them
+		n := 0
+		for _, e := range elems {
+			n += len(e)
+		}
+		whole = n == len(op.Toks)
+	}
+	switch {
+	case op.Via == "copy":
+		_, _ = xmlstream.Copy(t, &sliceReader{toks: op.Toks})
+	case op.Via == "encode" && whole:
+		for _, e := range elems {
+			note(e)
+			_ = t.Encode(&sliceReader{toks: e})
+		}
+	case op.Via == "encode-wt" && whole:
+		note(op.Toks)
+		_ = t.Encode(tokWriterTo(op.Toks))
+	case op.Via == "element" && whole:
+		// EncodeElement(v, start): v is the element under another name, start the real start tag
+		for _, e := range elems {
+			note(e)
+			inner := append([]STok{{K: 1, Space: "urn:example:wrapped", Local: "w"}}, e[1:len(e)-1]...)
+			inner = append(inner, STok{K: 2, Space: "urn:example:wrapped", Local: "w"})
+			_ = t.EncodeElement(&sliceReader{toks: inner}, e[0].XML().(xml.StartElement))
+		}
+	default:
+		for _, s := range op.Toks {
+			_ = t.EncodeToken(s.XML())
+		}
+	}
 }
 
 // ---- the served session ----
@@ -495,6 +579,7 @@ func Run(sp Spec) Obs {
 		o.From = sess.LocalAddr().String()
 	}
 	idx := 0
+	var curRec *recorder // the recorder of the invocation in progress (for handlers the multiplexer calls)
 	var m *mux.ServeMux
 	if sp.Mode == 1 {
 		var opts []mux.Option
@@ -502,7 +587,7 @@ func Run(sp Spec) Obs {
 			rg := rg
 			opts = append(opts, mux.IQFunc(stanza.IQType(rg.Type), xml.Name{Space: rg.Space, Local: rg.Local},
 				func(iq stanza.IQ, t xmlstream.TokenReadEncoder, start *xml.StartElement) error {
-					return RunOps(t, rg.Prog)
+					return RunOps(withNote{t, func(toks []STok) { curRec.Note(toks) }}, rg.Prog)
 				}))
 		}
 		m = mux.New(sp.NS, opts...)
@@ -511,6 +596,7 @@ func Run(sp Spec) Obs {
 		o.Invs = append(o.Invs, InvObs{Start: FromXML(start.Copy()), OutOff: c.out.Len()})
 		k := len(o.Invs) - 1
 		rec := &recorder{t: t, inv: &o.Invs[k], bad: &o.WriteErr}
+		curRec = rec
 		var err error
 		if m != nil {
 			err = m.HandleXMPP(rec, start)
@@ -1028,6 +1114,15 @@ func Encodable(sp Spec, o Obs) bool {
 	}
 	if sp.OutClosed && (sp.Mode == 1 || sp.WS || len(sp.Pend) > 0) { // closed output is modelled for plain handlers only
 		return false
+	}
+	if sp.OutClosed { // ... that write token by token: Copy / Encode / EncodeElement stop at the first failed write
+		for _, p := range sp.Progs {
+			for _, op := range p {
+				if op.K == "write" && op.Via != "" {
+					return false
+				}
+			}
+		}
 	}
 	if len(o.Invs) > 255 || len(sp.Progs) > 255 || len(o.Divs) > 255 {
 		return false
